@@ -303,8 +303,11 @@ def caller_rules(repo, rep):
                 k = base + 'conv-result'
                 if facs is not None and sorted(f_ for f_ in facs if f_ is not None) == [-1, 1] and len(facs) == 2:
                     rep.holds('R-WIRE', k, w, 'returned convergence is hemisign * (helper\'s second result)')
+                    # ... and it is negated exactly when the latitude is: both signs are restored for the same hemisphere argument, however it is spelt
+                    same_hemisphere_rule(rep, base, w, gr, want_gc, val.items[0])
                 elif ok:
                     rep.holds('R-WIRE', k, w, 'returned convergence is +/- the helper\'s second result')
+                    same_hemisphere_rule(rep, base, w, gr, want_gc, val.items[0])
                 else:
                     rep.undecided('R-WIRE', k, w, 'returned convergence: %s' % show(gr, 2, 200))
         # rounding of the scale factor
@@ -312,10 +315,65 @@ def caller_rules(repo, rep):
             if fn == fname and isinstance(value, Rat) and compare_values(value, alg.opaque('item', (alg.opaque('call:psfandgridconv', tuple(_argkey(bound.get(p.name)) for p in helper.params)), C(0)))) == 'equal':
                 k = 'R-ROUND::geodepy/convert.py::%s::psf' % fname
                 if digits is None or digits < 8:
-                    rep.violated('R-ROUND', k, '%s:%d' % (f.module.relpath, line), 'point scale factor rounded to %s decimals: coarser than 2e-8' % digits,
+                    rep.violated('R-ROUND', k, '%s:%d' % (f.module.relpath, line), ('point scale factor rounded to %s decimals: coarser than 2e-8' % digits) if digits is not None else
+                                 'point scale factor rounded to a number of SIGNIFICANT digits (or a non-constant number of decimals): for psf >= 1 eight significant digits are seven decimals, coarser than 2e-8',
                                  expected='d >= 8', actual='d = %s' % digits)
                 else:
                     rep.holds('R-ROUND', k, '%s:%d' % (f.module.relpath, line), 'point scale factor rounded to %d decimals' % digits)
+
+
+def same_hemisphere_rule(rep, base, w, conv, want_gc, lat_res):
+    """the two results that are mirrored for the northern hemisphere (latitude, convergence) flip under the same condition: the conditions are
+    evaluated for every spelling of the hemisphere argument that passes the function's own validation"""
+    from ..symcheck import split_ite, truth_under
+    k = base + 'conv-hemisphere'
+    a1 = split_ite(conv)
+    if a1:
+        # each arm is + or - the helper's result
+        a1 = [(conds, C(1) if compare_values(v, want_gc) == 'equal' else (C(-1) if compare_values(v, -want_gc) == 'equal' else None)) for conds, v in a1]
+        if any(v is None for conds, v in a1):
+            a1 = None
+    a2 = split_ite(lat_res)
+    if not a1 or not a2 or len(a1) != 2 or len(a2) != 2:
+        rep.undecided('R-WIRE', k, w, 'sign conditions of latitude / convergence not isolated')
+        return
+    g = Rat.sym('hemisphere')
+
+    def negated(arms, sval):
+        for conds, v in arms:
+            ts = [truth_under(c, [(g, sval)]) for c, tv in conds]
+            if any(t is None for t in ts):
+                return None
+            if all(t == tv for t, (c, tv) in zip(ts, conds)):
+                return conds, v
+        return None
+    bad = None
+    for sval in ('north', 'North', 'NORTH', 'south', 'South', 'SOUTH'):
+        r1, r2 = negated(a1, sval), negated(a2, sval)
+        if r1 is None or r2 is None:
+            rep.undecided('R-WIRE', k, w, 'sign conditions not evaluable for hemisphere=%r' % sval)
+            return
+        f1 = r1[1].as_fraction() if isinstance(r1[1], Rat) else None
+        if f1 is None:
+            rep.undecided('R-WIRE', k, w, 'convergence sign not constant in an arm')
+            return
+        # the latitude arm that is selected: is it the negated one?  (the arms differ by the sign only)
+        other = [v for conds, v in a2 if v is not r2[1]]
+        lat_neg = isinstance(r2[1], Rat) and other and isinstance(other[0], Rat) and _leading_negative(r2[1]) and not _leading_negative(other[0])
+        if (f1 < 0) != bool(lat_neg) and bad is None:
+            bad = (sval, f1 < 0, bool(lat_neg))
+    if bad:
+        rep.violated('R-WIRE', k, w, 'for hemisphere=%r the latitude is %s but the grid convergence is %s: the two signs are restored under different tests of the hemisphere argument '
+                     '(one is case-insensitive, the other is not)' % (bad[0], 'negated' if bad[2] else 'not negated', 'negated' if bad[1] else 'not negated'),
+                     expected='one test for both', actual='different tests')
+    else:
+        rep.holds('R-WIRE', k, w, 'latitude and convergence are negated for the same spellings of the hemisphere argument (north / North / NORTH)')
+
+
+def _leading_negative(r):
+    lm = r.num.lead()
+    c = r.num.t[lm]
+    return c.re < 0
 
 
 def _argkey(v):
